@@ -7,7 +7,7 @@ EXTENDS Lexer, TLC, Json, IOUtils
 
 Rec == ndJsonDeserialize(IOEnv.OBS)
 VARIABLE l
-MCKnown == { <<"s","i","z","e">>, <<"n","a","m","e">>, <<"l","e","n">> }
+MCKnown == { <<"s","i","z","e">>, <<"n","a","m","e">>, <<"l","e","n">>, <<"l","i","n","e","_","c","o","u","n","t">> }
 
 KindName(k) == CASE k = "raw" -> "RawString" [] k = "string" -> "String" [] k = "operator" -> "Operator" [] k = "arith" -> "ArithmeticOperator"
                  [] k = "comma" -> "Comma" [] k = "from" -> "From" [] k = "where" -> "Where" [] k = "open" -> "Open" [] k = "close" -> "Close"
